@@ -9,8 +9,8 @@ Open Scope list_scope.
 (* ------------------------------------------------------------------ small facts *)
 Lemma cv_eqb_refl : forall c, cv_eqb c c = true.
 Proof.
-  induction c as [z|s| |a IHa b IHb]; simpl.
-  - apply Z.eqb_refl. - apply String.eqb_refl. - reflexivity. - now rewrite IHa, IHb.
+  induction c as [z|s| |a IHa b IHb|z]; simpl.
+  - apply Z.eqb_refl. - apply String.eqb_refl. - reflexivity. - now rewrite IHa, IHb. - apply Z.eqb_refl.
 Qed.
 
 Lemma list_eqb_refl : forall l, list_eqb cv_eqb l l = true.
